@@ -130,127 +130,97 @@ theorem chopRoundNonneg_add_even (d m : Int) (hd : 0 ≤ d) (hm : 0 ≤ m) (he :
   split_ifs <;> omega
 
 /-- the token value of `sh` shares of a pool (totalShare `tot`, amount `amt`): what
-    TokensFromShares returns on its success path: truncateInt (quo (mulInt sh amt) tot) -/
-def tok (sh tot : Dec) (amt : Int) : Int := (quo (mulInt sh amt) tot).truncateInt
+    TokensFromShares returns on its success path: truncateInt (quoTruncate (mulInt sh amt) tot) -/
+def tok (sh tot : Dec) (amt : Int) : Int := (quoTruncate (mulInt sh amt) tot).truncateInt
 
+/-- the two truncations compose to the floor of the exact ratio -/
 theorem tok_eq (sh tot : Dec) (amt : Int) (hsh : 0 ≤ sh.raw) (htot : 0 < tot.raw) (hamt : 0 ≤ amt) :
-    tok sh tot amt = (chopRoundNonneg ((sh.raw * amt * (PREC * PREC)).tdiv tot.raw)).tdiv PREC := by
-  unfold tok quo mulInt truncateInt
-  have h1 : 0 ≤ sh.raw * amt * (PREC * PREC) :=
-    Int.mul_nonneg (Int.mul_nonneg hsh hamt) (by decide)
-  rw [chopRound_of_nonneg _ (tdiv_nonneg' _ _ h1 htot)]
+    tok sh tot amt = (sh.raw * amt) / tot.raw := by
+  unfold tok quoTruncate mulInt truncateInt chopTrunc
+  have hn : 0 ≤ sh.raw * amt := Int.mul_nonneg hsh hamt
+  have hpp : (0 : Int) < PREC * PREC := by decide
+  have h1 : 0 ≤ sh.raw * amt * (PREC * PREC) := Int.mul_nonneg hn (le_of_lt hpp)
+  have hq0 : 0 ≤ (sh.raw * amt * (PREC * PREC)).tdiv tot.raw := tdiv_nonneg' _ _ h1 htot
+  have hq1 : 0 ≤ ((sh.raw * amt * (PREC * PREC)).tdiv tot.raw).tdiv PREC := tdiv_nonneg' _ _ hq0 PREC_pos'
+  rw [tdiv_nonneg_eq _ _ hq1, tdiv_nonneg_eq _ _ hq0, tdiv_nonneg_eq _ _ h1]
+  rw [Int.ediv_ediv_of_nonneg (le_of_lt htot), Int.ediv_ediv_of_nonneg (Int.mul_nonneg (le_of_lt htot) (le_of_lt PREC_pos'))]
+  have e2 : sh.raw * amt * (PREC * PREC) = (PREC * PREC) * (sh.raw * amt) := by ring
+  rw [show tot.raw * PREC * PREC = (PREC * PREC) * tot.raw by ring, e2]
+  exact Int.mul_ediv_mul_of_pos _ _ hpp
 
 /-- upper bound through the cross-multiplied ratio: sh·amt ≤ k·tot ⇒ tok ≤ k -/
 theorem tok_le (sh tot : Dec) (amt k : Int) (hsh : 0 ≤ sh.raw) (htot : 0 < tot.raw) (hamt : 0 ≤ amt)
-    (hk : 0 ≤ k) (h : sh.raw * amt ≤ k * tot.raw) : tok sh tot amt ≤ k := by
+    (_hk : 0 ≤ k) (h : sh.raw * amt ≤ k * tot.raw) : tok sh tot amt ≤ k := by
   rw [tok_eq sh tot amt hsh htot hamt]
-  have h1 : 0 ≤ sh.raw * amt * (PREC * PREC) :=
-    Int.mul_nonneg (Int.mul_nonneg hsh hamt) (by decide)
-  have hq : (sh.raw * amt * (PREC * PREC)).tdiv tot.raw ≤ (k * PREC) * PREC := by
-    apply tdiv_le_of_le_mul _ _ _ h1 htot
-    have hpp : (0 : Int) ≤ PREC * PREC := by decide
-    nlinarith
-  have hq0 := tdiv_nonneg' _ _ h1 htot
-  have hr := chopRoundNonneg_le_of_le_mul _ (k * PREC) hq0 hq
-  have hr0 := chopRoundNonneg_nonneg _ hq0
-  exact tdiv_le_of_le_mul _ _ _ hr0 PREC_pos' hr
+  exact Int.ediv_le_of_le_mul htot h
 
 /-- lower bound: k·tot ≤ sh·amt ⇒ k ≤ tok -/
 theorem le_tok (sh tot : Dec) (amt k : Int) (hsh : 0 ≤ sh.raw) (htot : 0 < tot.raw) (hamt : 0 ≤ amt)
-    (hk : 0 ≤ k) (h : k * tot.raw ≤ sh.raw * amt) : k ≤ tok sh tot amt := by
+    (_hk : 0 ≤ k) (h : k * tot.raw ≤ sh.raw * amt) : k ≤ tok sh tot amt := by
   rw [tok_eq sh tot amt hsh htot hamt]
-  have h1 : 0 ≤ sh.raw * amt * (PREC * PREC) :=
-    Int.mul_nonneg (Int.mul_nonneg hsh hamt) (by decide)
-  have hq : (k * PREC) * PREC ≤ (sh.raw * amt * (PREC * PREC)).tdiv tot.raw := by
-    apply le_tdiv_of_mul_le _ _ _ h1 htot
-    have hpp : (0 : Int) ≤ PREC * PREC := by decide
-    nlinarith
-  have hq0 := tdiv_nonneg' _ _ h1 htot
-  have hr := le_chopRoundNonneg_of_mul_le _ (k * PREC) hq0 hq
-  have hr0 := chopRoundNonneg_nonneg _ hq0
-  exact le_tdiv_of_mul_le _ _ _ hr0 PREC_pos' hr
+  exact Int.le_ediv_of_mul_le htot h
 
 theorem tok_nonneg (sh tot : Dec) (amt : Int) (hsh : 0 ≤ sh.raw) (htot : 0 < tot.raw) (hamt : 0 ≤ amt) :
     0 ≤ tok sh tot amt :=
   le_tok sh tot amt 0 hsh htot hamt (le_refl 0) (by simpa using Int.mul_nonneg hsh hamt)
+
+/-- the truncated token value is the floor of the exact ratio sh·amt/tot -/
+theorem tok_floor (sh tot : Dec) (amt : Int) (hsh : 0 ≤ sh.raw) (htot : 0 < tot.raw) (hamt : 0 ≤ amt) :
+    tok sh tot amt * tot.raw ≤ sh.raw * amt ∧ sh.raw * amt < (tok sh tot amt + 1) * tot.raw := by
+  rw [tok_eq sh tot amt hsh htot hamt]
+  constructor
+  · exact Int.ediv_mul_le _ (ne_of_gt htot)
+  · have := Int.lt_ediv_add_one_mul_self (sh.raw * amt) htot
+    linarith
+
+/-- **the repaired property**: a staker that does not hold all the shares is never paid the whole pool -/
+theorem tok_lt_amount (sh tot : Dec) (amt : Int) (hsh : 0 ≤ sh.raw) (hlt : sh.raw < tot.raw) (hamt : 0 < amt) :
+    tok sh tot amt < amt := by
+  have htot : 0 < tot.raw := by omega
+  have hf := (tok_floor sh tot amt hsh htot (le_of_lt hamt)).1
+  by_contra hc
+  have hge : amt ≤ tok sh tot amt := by omega
+  have : amt * tot.raw ≤ tok sh tot amt * tot.raw := Int.mul_le_mul_of_nonneg_right hge (le_of_lt htot)
+  have : sh.raw * amt < tot.raw * amt := by nlinarith
+  nlinarith
 
 theorem tok_mono (sh1 tot1 : Dec) (amt1 : Int) (sh2 tot2 : Dec) (amt2 : Int)
     (h1 : 0 ≤ sh1.raw) (t1 : 0 < tot1.raw) (a1 : 0 ≤ amt1)
     (h2 : 0 ≤ sh2.raw) (t2 : 0 < tot2.raw) (a2 : 0 ≤ amt2)
     (h : sh1.raw * amt1 * tot2.raw ≤ sh2.raw * amt2 * tot1.raw) :
     tok sh1 tot1 amt1 ≤ tok sh2 tot2 amt2 := by
-  rw [tok_eq sh1 tot1 amt1 h1 t1 a1, tok_eq sh2 tot2 amt2 h2 t2 a2]
-  have hpp : (0 : Int) ≤ PREC * PREC := by decide
-  have n1 : 0 ≤ sh1.raw * amt1 * (PREC * PREC) := Int.mul_nonneg (Int.mul_nonneg h1 a1) hpp
-  have n2 : 0 ≤ sh2.raw * amt2 * (PREC * PREC) := Int.mul_nonneg (Int.mul_nonneg h2 a2) hpp
-  have q1le := tdiv_mul_le _ _ n1 t1
-  have q10 := tdiv_nonneg' _ _ n1 t1
-  have q20 := tdiv_nonneg' _ _ n2 t2
-  have hq : (sh1.raw * amt1 * (PREC * PREC)).tdiv tot1.raw ≤ (sh2.raw * amt2 * (PREC * PREC)).tdiv tot2.raw := by
-    apply le_tdiv_of_mul_le _ _ _ n2 t2
-    -- q1 * t2 ≤ a2 P²   from  q1 * t1 ≤ a1 P²  and the ratio hypothesis
-    apply Int.le_of_mul_le_mul_right _ t1
-    have e1 : (sh1.raw * amt1 * (PREC * PREC)).tdiv tot1.raw * tot2.raw * tot1.raw
-        = ((sh1.raw * amt1 * (PREC * PREC)).tdiv tot1.raw * tot1.raw) * tot2.raw := by ring
-    rw [e1]
-    have : ((sh1.raw * amt1 * (PREC * PREC)).tdiv tot1.raw * tot1.raw) * tot2.raw
-        ≤ (sh1.raw * amt1 * (PREC * PREC)) * tot2.raw := Int.mul_le_mul_of_nonneg_right q1le (le_of_lt t2)
-    have h' : sh1.raw * amt1 * (PREC * PREC) * tot2.raw ≤ sh2.raw * amt2 * (PREC * PREC) * tot1.raw := by
-      nlinarith
-    linarith
-  exact tdiv_mono _ _ _ (chopRoundNonneg_nonneg _ q10) PREC_pos' (chopRoundNonneg_mono _ _ q10 hq)
+  have f1 := (tok_floor sh1 tot1 amt1 h1 t1 a1).1
+  have n1 := tok_nonneg sh1 tot1 amt1 h1 t1 a1
+  apply le_tok sh2 tot2 amt2 _ h2 t2 a2 n1
+  -- tok1 * tot2 ≤ sh2*amt2  from  tok1*tot1 ≤ sh1*amt1 and the ratio hypothesis
+  apply Int.le_of_mul_le_mul_right _ t1
+  have : tok sh1 tot1 amt1 * tot1.raw * tot2.raw ≤ sh1.raw * amt1 * tot2.raw :=
+    Int.mul_le_mul_of_nonneg_right f1 (le_of_lt t2)
+  nlinarith
 
 theorem tok_le_succ (sh1 tot1 : Dec) (amt1 : Int) (sh2 tot2 : Dec) (amt2 : Int)
     (h1 : 0 ≤ sh1.raw) (t1 : 0 < tot1.raw) (a1 : 0 ≤ amt1)
     (h2 : 0 ≤ sh2.raw) (t2 : 0 < tot2.raw) (a2 : 0 ≤ amt2)
     (h : sh2.raw * amt2 * tot1.raw ≤ (sh1.raw * amt1 + tot1.raw) * tot2.raw) :
     tok sh2 tot2 amt2 ≤ tok sh1 tot1 amt1 + 1 := by
-  rw [tok_eq sh1 tot1 amt1 h1 t1 a1, tok_eq sh2 tot2 amt2 h2 t2 a2]
-  have hpp : (0 : Int) ≤ PREC * PREC := by decide
-  have n1 : 0 ≤ sh1.raw * amt1 * (PREC * PREC) := Int.mul_nonneg (Int.mul_nonneg h1 a1) hpp
-  have n2 : 0 ≤ sh2.raw * amt2 * (PREC * PREC) := Int.mul_nonneg (Int.mul_nonneg h2 a2) hpp
-  have q10 := tdiv_nonneg' _ _ n1 t1
-  have q20 := tdiv_nonneg' _ _ n2 t2
-  have q2le := tdiv_mul_le _ _ n2 t2
-  have q1lt := lt_tdiv_mul_add _ _ n1 t1
-  -- q2 ≤ q1 + P²
-  have hq : (sh2.raw * amt2 * (PREC * PREC)).tdiv tot2.raw
-      ≤ (sh1.raw * amt1 * (PREC * PREC)).tdiv tot1.raw + PREC * PREC := by
-    have hA : (sh2.raw * amt2 * (PREC * PREC)).tdiv tot2.raw * tot1.raw
-        ≤ sh1.raw * amt1 * (PREC * PREC) + PREC * PREC * tot1.raw := by
-      apply Int.le_of_mul_le_mul_right _ t2
-      have hh : sh2.raw * amt2 * (PREC * PREC) * tot1.raw ≤ (sh1.raw * amt1 + tot1.raw) * (PREC * PREC) * tot2.raw := by
-        nlinarith
-      have : (sh2.raw * amt2 * (PREC * PREC)).tdiv tot2.raw * tot1.raw * tot2.raw
-          = ((sh2.raw * amt2 * (PREC * PREC)).tdiv tot2.raw * tot2.raw) * tot1.raw := by ring
-      rw [this]
-      have := Int.mul_le_mul_of_nonneg_right q2le (le_of_lt t1)
-      nlinarith
-    have n3 : 0 ≤ sh1.raw * amt1 * (PREC * PREC) + PREC * PREC * tot1.raw := by
-      have : 0 ≤ PREC * PREC * tot1.raw := Int.mul_nonneg hpp (le_of_lt t1)
-      omega
-    have hB := le_tdiv_of_mul_le _ _ _ n3 t1 hA
-    have hC : (sh1.raw * amt1 * (PREC * PREC) + PREC * PREC * tot1.raw).tdiv tot1.raw
-        = (sh1.raw * amt1 * (PREC * PREC)).tdiv tot1.raw + PREC * PREC := by
-      rw [tdiv_nonneg_eq _ _ n3, tdiv_nonneg_eq _ _ n1]
-      exact Int.add_mul_ediv_right _ _ (ne_of_gt t1)
-    rw [hC] at hB
-    exact hB
-  have r1 := chopRoundNonneg_mono _ _ q20 hq
-  have e : (sh1.raw * amt1 * (PREC * PREC)).tdiv tot1.raw + PREC * PREC
-      = (sh1.raw * amt1 * (PREC * PREC)).tdiv tot1.raw + PREC * PREC := rfl
-  rw [chopRoundNonneg_add_even _ PREC q10 (by decide) (by decide)] at r1
-  have r0 := chopRoundNonneg_nonneg _ q10
-  have r20 := chopRoundNonneg_nonneg _ q20
-  have hfin := tdiv_mono _ _ PREC r20 PREC_pos' r1
-  have hsplit : (chopRoundNonneg ((sh1.raw * amt1 * (PREC * PREC)).tdiv tot1.raw) + PREC).tdiv PREC
-      = (chopRoundNonneg ((sh1.raw * amt1 * (PREC * PREC)).tdiv tot1.raw)).tdiv PREC + 1 := by
-    rw [tdiv_nonneg_eq _ _ (by omega), tdiv_nonneg_eq _ _ r0]
-    exact Int.add_ediv_of_dvd_right (dvd_refl PREC) |>.trans (by rw [Int.ediv_self (ne_of_gt PREC_pos')])
-  rw [hsplit] at hfin
-  exact hfin
+  have f2 := (tok_floor sh2 tot2 amt2 h2 t2 a2).1
+  have f1 := (tok_floor sh1 tot1 amt1 h1 t1 a1).2
+  have n1 := tok_nonneg sh1 tot1 amt1 h1 t1 a1
+  -- tok2*tot2*tot1 ≤ sh2*amt2*tot1 ≤ (sh1*amt1 + tot1)*tot2 < ((tok1+1)*tot1 + tot1)*tot2
+  by_contra hc
+  have hge : tok sh1 tot1 amt1 + 2 ≤ tok sh2 tot2 amt2 := by omega
+  have hA : (tok sh1 tot1 amt1 + 2) * tot2.raw ≤ tok sh2 tot2 amt2 * tot2.raw :=
+    Int.mul_le_mul_of_nonneg_right hge (le_of_lt t2)
+  have hB : tok sh2 tot2 amt2 * tot2.raw * tot1.raw ≤ sh2.raw * amt2 * tot1.raw :=
+    Int.mul_le_mul_of_nonneg_right f2 (le_of_lt t1)
+  have hC : (sh1.raw * amt1 + tot1.raw) * tot2.raw < ((tok sh1 tot1 amt1 + 1) * tot1.raw + tot1.raw) * tot2.raw := by
+    apply Int.mul_lt_mul_of_pos_right _ t2
+    omega
+  have hD : (tok sh1 tot1 amt1 + 2) * tot2.raw * tot1.raw ≤ tok sh2 tot2 amt2 * tot2.raw * tot1.raw :=
+    Int.mul_le_mul_of_nonneg_right hA (le_of_lt t1)
+  nlinarith
 
-/-- the truncated/rounded token value is within one unit of the exact ratio sh·amt/tot -/
+/-- the truncated token value is within one unit of the exact ratio sh·amt/tot -/
 theorem tok_real_bounds (sh tot : Dec) (amt : Int) (hsh : 0 ≤ sh.raw) (htot : 0 < tot.raw) (hamt : 0 ≤ amt) :
     (tok sh tot amt - 1) * tot.raw < sh.raw * amt ∨ tok sh tot amt = 0 := by
   by_cases h0 : tok sh tot amt = 0
@@ -263,12 +233,7 @@ theorem tok_real_bounds (sh tot : Dec) (amt : Int) (hsh : 0 ≤ sh.raw) (htot : 
     omega
 
 theorem tok_real_upper (sh tot : Dec) (amt : Int) (hsh : 0 ≤ sh.raw) (htot : 0 < tot.raw) (hamt : 0 ≤ amt) :
-    sh.raw * amt < (tok sh tot amt + 1) * tot.raw := by
-  have hnn := tok_nonneg sh tot amt hsh htot hamt
-  by_contra hc
-  have hc' : (tok sh tot amt + 1) * tot.raw ≤ sh.raw * amt := by omega
-  have := le_tok sh tot amt (tok sh tot amt + 1) hsh htot hamt (by omega) hc'
-  omega
+    sh.raw * amt < (tok sh tot amt + 1) * tot.raw := (tok_floor sh tot amt hsh htot hamt).2
 
 end Dec
 end ExoVerif
